@@ -17,7 +17,12 @@
    * _unknown is not transferred; present bits of the source are not touched;
    * move_legal leaves null pointers in the source's _fields / _groups and clears its _pos;
    * move_legal dereferences _groups.find(fnum) without testing for end()  (finding: a decoded,
-     i.e. shallow, message holding a group count field "0" has no such entry). *)
+     i.e. shallow, message holding a group count field "0" has no such entry);
+   * copy_legal dereferences to->find_group(fnum) without a null test (finding: the deep
+     constructor of the FIX44 header does not pre-create NoHops).
+   Outside this model (and outside the generators): replacing a constructor-owned header field
+   (BeginString 8, ...) through add_field frees the object the header's dedicated pointer
+   (get_begin_string()) refers to; Message::encode then reads freed memory (observed under ASan). *)
 From Coq Require Import NArith ZArith List Bool.
 From F8 Require Import Codec.Bytes Codec.Meta.
 Import ListNotations.
